@@ -77,6 +77,11 @@ class Evaluator:
             if all(v is not None and v[0] == 'num' for v in vals):
                 return _num(0)
             return None
+        if op == '?:' and len(e) == 5:
+            c = self.ev(e[2], env)
+            if c is not None and c[0] == 'num':
+                return self.ev(e[3] if c[1] != 0 else e[4], env)
+            return None
         args = [self.ev(a, env) for a in e[2:]]
         if op == 'substr':
             s, lo, hi = args[0], (args[1] if len(args) > 1 else None), (args[2] if len(args) > 2 else None)
